@@ -27,7 +27,8 @@ Record rthread := mkRT {
   r_noinit : list nat;                    (* weak mode: atomics whose initial value this thread can no longer
                                              read (a store to it happens-before the thread: its own store, or
                                              a store made before a wake-up it has consumed) *)
-  r_wakeview : list nat                   (* what the pending wake-ups carry *)
+  r_wakeview : list nat;                  (* what the pending wake-ups carry *)
+  r_afail : bool                          (* the await loop at the current pc has already failed a poll *)
 }.
 
 Record robj := mkRO {
@@ -58,12 +59,12 @@ Definition robj_of_decl (d : decl) : robj :=
   end.
 
 Definition rinit (weak : bool) (p : prog) : rstate :=
-  mkRS (mapi (fun b code => mkRT (if Nat.eqb b 0 then RReady else RNotStarted) code 0 false [] [] false false None [] [])
+  mkRS (mapi (fun b code => mkRT (if Nat.eqb b 0 then RReady else RNotStarted) code 0 false [] [] false false None [] [] false)
              (p_bodies p))
        (map robj_of_decl (p_decls p)) (p_decls p) weak.
 
 Definition ro_default : robj := mkRO 0%N None [] [] false false false [] false 0 [] false [].
-Definition rt_default : rthread := mkRT RDone [] 0 false [] [] false false None [] [].
+Definition rt_default : rthread := mkRT RDone [] 0 false [] [] false false None [] [] false.
 Definition robj_get (s : rstate) (i : nat) : robj := nth i (rs_objs s) ro_default.
 Definition rth_get (s : rstate) (i : nat) : rthread := nth i (rs_threads s) rt_default.
 
@@ -81,12 +82,13 @@ Definition ro_with_q (o : robj) q rx := mkRO (ro_val o) (ro_owner o) (ro_readers
 Definition ro_with_arc (o : robj) c sl := mkRO (ro_val o) (ro_owner o) (ro_readers o) (ro_waiters o) (ro_flag o) (ro_spur o) (ro_waiting o) (ro_q o) (ro_rx o) c sl (ro_live o) (ro_hist o).
 Definition ro_with_live (o : robj) b := mkRO (ro_val o) (ro_owner o) (ro_readers o) (ro_waiters o) (ro_flag o) (ro_spur o) (ro_waiting o) (ro_q o) (ro_rx o) (ro_cnt o) (ro_slots o) b (ro_hist o).
 
-Definition rt_with_status (t : rthread) st := mkRT st (r_code t) (r_pc t) (r_token t) (r_guards t) (r_log t) (r_woken t) (r_bospur t) (r_waker t) (r_noinit t) (r_wakeview t).
-Definition rt_with_token (t : rthread) b := mkRT (r_status t) (r_code t) (r_pc t) b (r_guards t) (r_log t) (r_woken t) (r_bospur t) (r_waker t) (r_noinit t) (r_wakeview t).
-Definition rt_with_guards (t : rthread) g := mkRT (r_status t) (r_code t) (r_pc t) (r_token t) g (r_log t) (r_woken t) (r_bospur t) (r_waker t) (r_noinit t) (r_wakeview t).
-Definition rt_with_bo (t : rthread) st w sp := mkRT st (r_code t) (r_pc t) (r_token t) (r_guards t) (r_log t) w sp (r_waker t) (r_noinit t) (r_wakeview t).
-Definition rt_with_waker (t : rthread) w := mkRT (r_status t) (r_code t) (r_pc t) (r_token t) (r_guards t) (r_log t) (r_woken t) (r_bospur t) w (r_noinit t) (r_wakeview t).
-Definition rt_with_views (t : rthread) ni wv := mkRT (r_status t) (r_code t) (r_pc t) (r_token t) (r_guards t) (r_log t) (r_woken t) (r_bospur t) (r_waker t) ni wv.
+Definition rt_with_status (t : rthread) st := mkRT st (r_code t) (r_pc t) (r_token t) (r_guards t) (r_log t) (r_woken t) (r_bospur t) (r_waker t) (r_noinit t) (r_wakeview t) (r_afail t).
+Definition rt_with_token (t : rthread) b := mkRT (r_status t) (r_code t) (r_pc t) b (r_guards t) (r_log t) (r_woken t) (r_bospur t) (r_waker t) (r_noinit t) (r_wakeview t) (r_afail t).
+Definition rt_with_guards (t : rthread) g := mkRT (r_status t) (r_code t) (r_pc t) (r_token t) g (r_log t) (r_woken t) (r_bospur t) (r_waker t) (r_noinit t) (r_wakeview t) (r_afail t).
+Definition rt_with_bo (t : rthread) st w sp := mkRT st (r_code t) (r_pc t) (r_token t) (r_guards t) (r_log t) w sp (r_waker t) (r_noinit t) (r_wakeview t) (r_afail t).
+Definition rt_with_waker (t : rthread) w := mkRT (r_status t) (r_code t) (r_pc t) (r_token t) (r_guards t) (r_log t) (r_woken t) (r_bospur t) w (r_noinit t) (r_wakeview t) (r_afail t).
+Definition rt_with_views (t : rthread) ni wv := mkRT (r_status t) (r_code t) (r_pc t) (r_token t) (r_guards t) (r_log t) (r_woken t) (r_bospur t) (r_waker t) ni wv (r_afail t).
+Definition rt_with_afail (t : rthread) b := mkRT (r_status t) (r_code t) (r_pc t) (r_token t) (r_guards t) (r_log t) (r_woken t) (r_bospur t) (r_waker t) (r_noinit t) (r_wakeview t) b.
 Fixpoint nunion (a b : list nat) : list nat :=
   match a with
   | [] => b
@@ -98,7 +100,7 @@ Definition rt_add_noinit (t : rthread) (a : nat) := rt_with_views t (nunion [a] 
 Definition rt_advance (t : rthread) (r : result) : rthread :=
   let code := tl (r_code t) in
   mkRT (match code with [] => RDone | _ => RReady end) code (S (r_pc t)) (r_token t) (r_guards t)
-       ((r_pc t, r) :: r_log t) false false (r_waker t) (r_noinit t) (r_wakeview t).
+       ((r_pc t, r) :: r_log t) false false (r_waker t) (r_noinit t) (r_wakeview t) false.
 
 (* the values a load of atomic [a] by thread [t] may return *)
 Definition reads_of (weak : bool) (t : rthread) (o : robj) (a : nat) : list N :=
@@ -349,9 +351,18 @@ Definition rstep (s : rstate) (tid : nat) : rres :=
               (* a blocking read: every unsuccessful poll is recorded by the
                  implementation; R records only the successful one (the
                  comparison drops unsuccessful polls) *)
-              let o := robj_get s a in
-              if existsb (N.eqb v) (reads_of (rs_weak s) t o a)
-              then done1 s tid t (RVal v) else RDisabled
+              (* ... except for ONE bit: whether some poll failed before the successful one
+                 (ROk v) or not (RVal v). A poll can fail whenever a value other than v is
+                 readable. *)
+              let rd := reads_of (rs_weak s) t (robj_get s a) a in
+              let succ := if existsb (N.eqb v) rd
+                          then [set_th s tid (rt_advance t (if r_afail t then ROk v else RVal v))] else [] in
+              let fail := if negb (r_afail t) && existsb (fun x => negb (N.eqb x v)) rd
+                          then [set_th s tid (rt_with_afail t true)] else [] in
+              match succ ++ fail with
+              | [] => RDisabled
+              | l => RNext l
+              end
           | IUnsyncLoad a => done1 s tid t (RVal (ro_val (robj_get s a)))
           | IWithMut a v =>
               let o := robj_get s a in
